@@ -127,6 +127,34 @@ func propC03(r *Run) {
 				w.checkAuth("C03", 0, u, w.model[u].PW)
 			}
 		}
+		// valid names, but a work area that cannot be used (.tmp is a regular file or a dangling
+		// symlink): whatever the operation does then, it must not wander off to another directory
+		if r.Choose("tmp-unusable", 3) == 0 {
+			w.fs.Delete(w.base() + "/.tmp/" + users[0] + ".user")
+			w.fs.Delete(w.base() + "/.tmp")
+			if r.Choose("tmp-kind", 2) == 0 {
+				w.fs.Put(w.base()+"/.tmp", []byte("not a directory"), 0o600)
+			} else {
+				w.fs.PutSymlink("/nonexistent/target", w.base()+"/.tmp")
+			}
+			w.arm()
+			for k := 0; k < 3; k++ {
+				u := users[r.Choose("tu-user", len(users))]
+				var err error
+				switch r.Choose("tu-op", 3) {
+				case 0:
+					w.guard("update", func() { err = d.UpdateUser(u, "new-password") })
+				case 1:
+					w.guard("add", func() { err = d.AddUser("brandnew", "pw", false) })
+				case 2:
+					w.guard("set-admin", func() { err = d.SetAdmin(u, true) })
+				}
+				r.Logf("unusable work area: op on %s -> %v", u, err)
+				r.Nontrivial(fmt.Sprintf("tmp-unusable|%d", k))
+				w.confinement()
+			}
+			return
+		}
 		// files with invalid names never count as users / as the required administrator
 		if r.Choose("invalid-files", 2) == 1 {
 			w.fs.Delete(w.base() + "/sub/" + users[0] + ".user")
